@@ -211,3 +211,53 @@ def _free_size(ck, P, rid, cfg):
                     "too small (or needlessly large)" % (bad[0], 1 << bad[0], bad[1]), cfg)
     else:
         ck.holds(rid, inst, init.where, "returns 1 << the order it marks free, for every order", cfg)
+
+
+def check_no_narrowing(ck, P, rid):
+    """The requested size reaches the order computation (count-leading-zeros) at full width: no conversion to a narrower integer
+    type is applied to the size itself (conversions of the resulting order, a small number, are fine)."""
+    cfg = P.config
+    n = 0
+    for fname in ("rs_malloc", "buddy_best_effort_realloc", "rs_realloc", "rs_calloc"):
+        f = P.fn_opt(fname)
+        if f is None:
+            continue
+        sizes = [p for p in f.params if (p.get("t") or "").replace("const ", "").strip() in ("size_t", "unsigned long", "uint64_t", "unsigned long long")]
+        if not sizes:
+            continue
+        names = {p["name"] for p in sizes}
+        # locals initialised from products of the size parameters (rs_calloc's tot) are sizes too
+        for v in f.walk():
+            if v.k == "VarDecl" and v.children and v.sc == "local" and (v.t or "").replace("const ", "").strip() in ("size_t", "unsigned long") and any(x.k == "DeclRefExpr" and x.name in names for x in v.children[-1].walk()):
+                names.add(v.name)
+        inst = "full-width@%s" % fname
+        n += 1
+        bad = None
+        for c in f.walk():
+            if c.k not in ("CStyleCastExpr", "ImplicitCastExpr") or not c.d.get("ti") or c.d["ti"][0] >= 64:
+                continue
+            if c.k == "ImplicitCastExpr" and c.ck not in ("IntegralCast",):
+                continue
+            # does the operand denote the size itself?  descend through arithmetic / parentheses / ?: / min-max statement expressions,
+            # never through a call (clz turns a size into an order)
+            todo = list(c.children)
+            hit = None
+            while todo:
+                x = todo.pop()
+                if x.k in ("CallExpr", "UnaryExprOrTypeTraitExpr", "ChooseExpr", "GenericSelectionExpr"):
+                    continue        # a call's result (clz) is an order; sizeof / selection operands are not evaluated
+                if x.k == "DeclRefExpr" and x.name in names:
+                    hit = x
+                    break
+                if x.k in ("BinaryOperator",) and x.op in ("<", ">", "<=", ">=", "==", "!=", "&&", "||", ">>"):
+                    continue        # a comparison's result is not the size; a right shift by a constant is a deliberate scaling
+                todo.extend(x.children)
+            if hit is not None and bad is None:
+                bad = (c, hit)
+        if bad:
+            c, hit = bad
+            ck.violated(rid, inst, c.where, "`%s` is converted to %s (%d bits) before its size class is computed: a request of 2^32 + k bytes is served like one of k bytes — a block far smaller than "
+                        "asked for is returned as if the call had succeeded" % (hit.name, c.t, c.d["ti"][0]), cfg)
+        else:
+            ck.holds(rid, inst, f.where, "the requested size is never narrowed on the way to its size class", cfg)
+    ck.expect(rid, n, 3, "allocator entry points that classify a requested size")
